@@ -56,6 +56,7 @@ MonInit(p, effconc, effcoe, caller) ==
    cnt |-> [i \in Insts(p) |-> 0],       \* how many times it was started
    ctxMay |-> FALSE, ctxDone |-> FALSE, ctxAtRet |-> FALSE,
    doomed |-> {},
+   gs |-> {},                        \* goroutines on which user functions have started
    ret |-> <<>>,                     \* <<kind, errs, results>> once returned
    emits |-> <<>>,                   \* emitter callbacks so far
    viol |-> {}]
@@ -139,7 +140,7 @@ OnStart(m, e) ==
   ELSE
   LET u == UnitOf(m.prog, e.u)
       dataprop == CASE u.kind = "task" -> "C02" [] u.kind = "pred" -> "C11" [] OTHER -> "C10"
-  IN Add([m EXCEPT !.st[i] = "running", !.cnt[i] = @ + 1, !.anyStart = TRUE],
+  IN Add([m EXCEPT !.st[i] = "running", !.cnt[i] = @ + 1, !.anyStart = TRUE, !.gs = @ \cup {e.g}],
       (IF m.cnt[i] = 0 THEN {} ELSE {V(m, e, IF u.kind = "pred" THEN "C11" ELSE "C01", "user function invoked more than once")})
       \cup (IF m.cnt[i] = 0 \/ u.kind = "pred" THEN {}
             ELSE {V(m, e, dataprop, "task / element function invoked more than once")})
@@ -153,6 +154,10 @@ OnStart(m, e) ==
       \cup (IF ~DepsOK(m, i) \/ e.toks = ExpectedToks(m, i) THEN {}
             ELSE {V(m, e, dataprop, "invoked with other values than its providers returned")})
       \cup (IF NRun(m) < m.conc THEN {} ELSE {V(m, e, "C03", "more user functions running than the concurrency limit")})
+      \* the goroutines of a directive are its workers: a function of the limit only, whatever the number of
+      \* tasks / elements (no user function of the rendered programs kills its goroutine)
+      \cup (IF Cardinality(m.gs \cup {e.g}) <= m.conc THEN {}
+            ELSE {V(m, e, "C03", "user functions ran on more goroutines than the concurrency limit")})
       \cup (IF i \notin m.doomed THEN {} ELSE {V(m, e, "C09", "started although it could only start after the cancellation")})
       \cup (IF e.ctxok THEN {} ELSE {V(m, e, "C09", "user function did not receive the directive's context")})
       \cup (IF m.nargs = m.prog.nargsexpr THEN {} ELSE {V(m, e, "C15", "a task started before every argument was evaluated")}))
@@ -307,6 +312,7 @@ MonStep(m, e) ==
     [] e.ev = "hang" -> Add(m, {V(m, e, "C05", "the directive did not return: " \o e.note)})
     [] e.ev = "leak" -> Add(m, {V(m, e, IF SubSeq(e.note, 1, 3) = "not" THEN "INCONCLUSIVE" ELSE "C06",
                                     "scheduler goroutines survive the directive: " \o e.note)})
+    [] e.ev = "notprompt" -> Add(m, {V(m, e, "C09", "the directive did not return after its context was done while a user function was still running")})
     [] e.ev = "slow" -> Add(m, {V(m, e, "INCONCLUSIVE", e.note)})
     [] OTHER -> m
 =============================================================================
